@@ -22,6 +22,7 @@ func checkC13(c *Ctx) {
 	c.Rule("C13/R3", "benchmath.Sample is constructed only by NewSample, which sorts the slice it stores; stats.Sample{Sorted:true} is built only from Sample.Values")
 	c.Rule("C13/R4", "process-wide memo tables are keyed by every input of the memoised call, verbatim")
 	c.Rule("C13/R5", "rendering tables (DESIGN Appendix A4): FormatDelta — P>Alpha '~', equal '0.00%', old=0 '?', else (new/old-1)*100 with %+.2f%%; PctRangeString — infinite end '∞', sign mismatch '?', zero centre '0%', else the larger relative deviation of the interval ends from the centre, in percent")
+	c.Rule("C13/R8", "the configured significance level reaches the test: NewSample stores the thresholds pointer it was handed, verbatim, on every path")
 	c.Rule("C13/R7", "scale invariance by dimensions: on the way from every Assumption.Compare (benchmath; the tests themselves live in the external go-moremath module) no quantity that carries the unit of the measurements (a value, mean, deviation, variance, quantile, or a product/quotient of them that does not cancel) is compared with a non-zero constant")
 	c.Rule("C13/R6", "summary wiring: the assume-nothing summary uses the median interval for (len(values), requested confidence) and reports the interval's own confidence; the normal summary reports the mean interval at the requested confidence; the exact summary's bounds are the first and last sorted values and it warns exactly when the mode count differs from the sample size")
 
@@ -33,6 +34,7 @@ func checkC13(c *Ctx) {
 	c13Render(c, p)
 	c13Summary(c, p)
 	c13Scale(c, p)
+	c13Thresholds(c, p, "C13/R8")
 	if c.Tier == "thorough" {
 		p2 := mustLoad(c, loadOpts{}, "./...")
 		var rels []string
@@ -936,4 +938,29 @@ func measurementSlice(v ssa.Value, depth int) bool {
 		return f != nil && (f.Name() == "Values" || f.Name() == "Xs") && recvName(x.X.Type()) == "Sample"
 	}
 	return false
+}
+
+// c13Thresholds (C13/R8 = C14/R13): the significance level a comparison is made at is the one the caller configured.
+// NewSample stores the thresholds pointer it was handed, verbatim, on every path: a "sensible default" substituted for
+// an unset or zero-valued Thresholds turns the legal setting alpha = 0 (nothing is significant) into alpha = 0.05.
+func c13Thresholds(c *Ctx, p *Prog, R string) {
+	fn := p.Fn("benchmath", "NewSample")
+	thrF := p.Field("benchmath", "Sample", "Thresholds")
+	if fn == nil || thrF == nil {
+		c.Undecided(R, "anchor:NewSample/Sample.Thresholds", "", "not found")
+		return
+	}
+	var prm *ssa.Parameter
+	for _, q := range fn.Params {
+		if pt, ok := q.Type().(*types.Pointer); ok && recvName(pt.Elem()) == "Thresholds" {
+			prm = q
+		}
+	}
+	n := 0
+	for _, st := range storesToField(fn, thrF) {
+		n++
+		c.Check(prm != nil && stripConv(st.Val) == ssa.Value(prm), R, fmt.Sprintf("NewSample:thresholds#%d", n), p.pos(st.Pos()), "the sample keeps the caller's thresholds",
+			"the thresholds stored in the sample are not, on every path, the ones the caller passed: with -alpha 0 (a legal setting under which no difference is significant) the comparison is then made at a default level, deltas are shown where '~' belongs and the 'alpha level 0' warnings disappear")
+	}
+	c.Floor(R, "stores of the sample's thresholds", n, 1)
 }
